@@ -7,7 +7,7 @@ name=$1; shift
 d=seeded/$name
 [ -f $d/patch.diff ] || { echo "no $d/patch.diff"; exit 2; }
 ids="$@"
-[ -z "$ids" ] && ids=$(python3 -c "import json;print(json.load(open('$d/meta.json'))['property'])")
+[ -z "$ids" ] && ids=${name%%-*}
 wt=/root/scratch/seed_$name
 git -C /repo worktree remove --force $wt >/dev/null 2>&1
 git -C /repo worktree add --detach $wt HEAD >/dev/null 2>&1 || exit 2
